@@ -301,9 +301,13 @@ class Interp:
                     if name == "model_config":
                         continue
                     o.fields[name] = Frame(self, FuncInfoStub(cc), {}, None).eval(ex)
+            required = [n for cc in self.repo.mro(ci) for n in cc.required]
             for k_, v in kwargs.items():
-                if k_ in o.fields:
+                if k_ in o.fields or k_ in required:
                     o.fields[k_] = v
+            for n in required:
+                if n not in o.fields:
+                    raise PyRaise("ValidationError", f"field required: {n}")
             return o
         if args or kwargs:
             raise PyRaise("TypeError", f"{ci.node.name}() takes no arguments")
@@ -1409,7 +1413,12 @@ class Frame:
             m = I.models.get(f.name)
             if m is None:
                 raise Unsupported(f"no model for foreign function {f.name}")
-            return m(self, args, kwargs)
+            try:
+                return m(self, args, kwargs)
+            except TypeError as e:
+                if "unexpected keyword" in str(e) or "positional argument" in str(e):
+                    raise Unsupported(f"call of {f.name} outside its model: {e}")
+                raise
         raise Unsupported(f"call of {type(f).__name__}")
 
     def call_closure(self, f: Closure, args, kwargs):
